@@ -86,3 +86,7 @@ V('C03', 'lint-localnames-not-forwarded', N, 'edb.edgeql.compiler.normalization.
             schema=schema,
             modaliases=modaliases,
         )''', 'C03.L', 'slips:option-forwarding')
+V('C03', 'constraint-table-never-filled', 'edb/edgeql/declarative.py', 'edb.edgeql.declarative._trace_item_layout',
+  '            ctx.constraints[fq_name].add(con_name)\n', '', 'C03.R7', 'DepTraceContext.constraints:filled')
+V('C03', 'old-value-defaulted', 'edb/schema/delta.py', 'edb.schema.delta.ObjectCommand._apply_fields_ast',
+  '                        fop.old_value != new_value\n', '                        (fop.old_value if fop.old_value is not None else field.get_default()) != new_value\n', 'C03.R7', 'old-value-as-recorded')
